@@ -14,6 +14,7 @@
 -/
 import Gts.Model.Sexp
 import Gts.Model.Mem
+import Gts.Model.MemLoc
 namespace Gts
 open Gts.Mem Gts.Mem.Heap
 
@@ -89,6 +90,79 @@ def memBytes1 (args : List Sexp) (f : World Feature → MSeq → List Sexp → O
 /-! ### locations in memory -/
 
 def locDepth : Nat := 64
+
+/-! ### location heaps (op `mem.loc`, shared with harness/props_c11_loc.go)
+
+    (H (cell…) (cell…) …)      the arrays of location cells, whole arrays
+    cell = (B p) | (P p) | (R s e p5 p3) | (A s e)          a contiguous value
+         | (MJ arr off len cap) | (MO arr off len cap)      a `Joined` / `Ordered` header
+         | (MC cell)                                         `Complemented{cell}`
+  Answer: the arrays after the call in the same syntax, then the result as a GRAPH: a header into
+  an argument array is printed as above; an array allocated by the call is numbered in the order
+  of first visit (preorder) and printed with the cells it shows, `(NJ k len cell…)`, a second visit
+  as `(NJ k)`; a header without capacity as `(MJ ~)`. -/
+
+partial def decCell? : Sexp → Option MLoc
+  | .list [.atom "MJ", a, o, l, c] => do
+    pure (.joined ⟨← decNat? a, ← decNat? o, ← decNat? l, ← decNat? c⟩)
+  | .list [.atom "MO", a, o, l, c] => do
+    pure (.ordered ⟨← decNat? a, ← decNat? o, ← decNat? l, ← decNat? c⟩)
+  | .list [.atom "MC", x] => do pure (.compl (← decCell? x))
+  | s => do
+    let l ← decLoc? s
+    if isContig l then pure (.leaf l) else none
+
+def decLHeap? : Sexp → Option LHeap
+  | .list (.atom "H" :: arrs) => arrs.mapM fun
+    | .list cells => cells.mapM decCell?
+    | _ => none
+  | _ => none
+
+/-- a cell of an argument array (`n0` arrays existed before the call) -/
+partial def encCellArg (n0 : Nat) : MLoc → String
+  | .leaf l => encLoc l
+  | .joined s =>
+    if s.cap = 0 then "(MJ ~)" else if s.arr < n0 then s!"(MJ {s.arr} {s.off} {s.len} {s.cap})" else "(?J)"
+  | .ordered s =>
+    if s.cap = 0 then "(MO ~)" else if s.arr < n0 then s!"(MO {s.arr} {s.off} {s.len} {s.cap})" else "(?O)"
+  | .compl m => "(MC " ++ encCellArg n0 m ++ ")"
+
+def encLHeapDump (n0 : Nat) (h : LHeap) : String :=
+  "(H" ++ String.join ((List.range n0).map fun a => " " ++ encList ((h.get a).map (encCellArg n0))) ++ ")"
+
+mutual
+/-- the result as a graph; `seen` = the new arrays visited so far, as (array, offset) -/
+partial def encGraph (n0 : Nat) (h : LHeap) (m : MLoc) (seen : List (Nat × Nat)) : String × List (Nat × Nat) :=
+  match m with
+  | .leaf l => (encLoc l, seen)
+  | .joined s => encGraphSlice n0 h "J" s seen
+  | .ordered s => encGraphSlice n0 h "O" s seen
+  | .compl m => let r := encGraph n0 h m seen; ("(MC " ++ r.1 ++ ")", r.2)
+partial def encGraphSlice (n0 : Nat) (h : LHeap) (tag : String) (s : Slice) (seen : List (Nat × Nat)) :
+    String × List (Nat × Nat) :=
+  if s.cap = 0 then (s!"(M{tag} ~)", seen)
+  else if s.arr < n0 then (s!"(M{tag} {s.arr} {s.off} {s.len} {s.cap})", seen)
+  else match seen.idxOf? (s.arr, s.off) with
+    | some k => (s!"(N{tag} {k})", seen)
+    | none =>
+      let k := seen.length
+      let r := (read h s).foldl (fun (st : String × List (Nat × Nat)) c =>
+        let x := encGraph n0 h c st.2
+        (st.1 ++ " " ++ x.1, x.2)) ("", seen ++ [(s.arr, s.off)])
+      (s!"(N{tag} {k} {s.len}" ++ r.1 ++ ")", r.2)
+end
+
+/-- run one location method on a receiver laid out in a location heap -/
+def memLoc (meth : Sexp) (h : LHeap) (m : MLoc) (rest : List Sexp) : Option (Option (MLoc × LHeap)) :=
+  match meth, rest with
+  | .atom "expand", [i, n] => do pure (expandMem memGrow (← decInt? i) (← decInt? n) locDepth h m)
+  | .atom "shift", [i, n] => do pure (shiftMem memGrow (← decInt? i) (← decInt? n) locDepth h m)
+  | .atom "normalize", [len] => do pure (normalizeMem memGrow (← decInt? len) locDepth h m)
+  | .atom "reverse", [len] => do pure (reverseMem memGrow (← decInt? len) locDepth h m)
+  | .atom "complement", [] => pure (some (complementMem m, h))
+  | .atom "slice", [len, a, b, src] => do
+    pure (sliceLocMem memGrow locDepth (← decInt? len) (← decInt? a) (← decInt? b) (← decBool? src) h m)
+  | _, _ => none
 
 /-! ### props in memory: `(P ocap (rcap x… x…) …)`: outer capacity, rows with their capacity -/
 
@@ -182,6 +256,12 @@ def evalMem (op : String) (args : List Sexp) : Option String :=
       let a := allocLoc l []
       let r := asCompleteMem locDepth a.2 a.1
       pure (encLoc (readLoc locDepth r.2 a.1) ++ " " ++ encLoc (readLoc locDepth r.2 r.1))
+  | "mem.loc", meth :: hs :: root :: rest => do
+      let h ← decLHeap? hs
+      let m ← decCell? root
+      match ← memLoc meth h m rest with
+      | none => pure "PANIC"
+      | some r => pure (encLHeapDump h.length r.2 ++ " " ++ (encGraph h.length r.2 r.1 []).1)
   | "mem.origin", [t] => do
       let text ← decBytes? t
       let w : OWorld := ⟨[text], [⟨⟨0, 0, text.length, text.length⟩, false⟩]⟩
